@@ -30,8 +30,7 @@ def main(tier, seed, replay=None):
         scs = [sk.gen_start_scenario(rnd, drops=True) for _ in range(n)]
         scs += [sk.gen_stop_scenario(rnd) for _ in range(n // 2)]
     sk.model_check(v, tier)
-    traces = sk.run_scenarios(scs)
-    allv = sk.judge(v, traces, scs, LABELS, TERMINAL)
+    allv, _, _ = sk.run_and_judge(v, scs, LABELS, TERMINAL)
     if replay:
         print(allv)
     v.sample({'scenario': scs[min(1, len(scs) - 1)]})
